@@ -95,8 +95,23 @@ def p2sh_plain(draw):
     return dict(kind='plain-p2sh', kw=dict(script=b'\xa9\x14' + R.ripemd(R.sha256(redeem)) + b'\x87', stack=args + [redeem], flags=STD & ~F['CLEANSTACK'], sv=R.BASE))
 
 
+@st.composite
+def plain_long(draw):
+    """listings of more than 100 / more than 1000 lines (index width), walked far into the script"""
+    units = [draw(st.sampled_from([b'\x51\x75', b'\x61', b'\x52\x53\x93\x75', b'\x01\x42\x75', b'\x74\x75'])) for _ in range(draw(st.integers(1, 3)))]
+    lines = draw(st.sampled_from([99, 100, 101, 130, 130, 999, 1000, 1001, 1100]))
+    body = bytearray()
+    i = 0
+    while len(R.decode(bytes(body))) < lines - 1 and sum(1 for e in R.decode(bytes(body) + units[i % len(units)]) if e[0] > 0x60) <= 200:
+        body += units[i % len(units)]
+        i += 1
+    while len(R.decode(bytes(body))) < lines - 1:
+        body += b'\x51'          # uncounted filler (pushes only) once the 201 counted operations are used up
+    return dict(kind='plain-long', kw=dict(script=bytes(body) + b'\x51', stack=[], flags=STD & ~F['CLEANSTACK'], sv=R.BASE))
+
+
 def sessions():
-    return st.one_of(plain_base(), plain_base(), p2sh_plain(), SS.legacy_spend(), SS.legacy_spend(), SS.tapscript_spend(), SS.codesep_mock().filter(lambda s: s['kw']['sv'] == R.BASE))
+    return st.one_of(plain_base(), plain_base(), p2sh_plain(), plain_long(), SS.legacy_spend(), SS.legacy_spend(), SS.tapscript_spend(), SS.codesep_mock().filter(lambda s: s['kw']['sv'] == R.BASE))
 
 
 def cli_args(sess):
@@ -239,8 +254,10 @@ def check_session(case, ctx):
         return
     dumps = [g['init']] + [e['d'] for e in g['log']]
     accepted_rewind = any(e['c'] == 'r' and e['acc'] for e in g['log'])
-    ctx.case(repr(case_json(case)), multi or accepted_rewind, dict(case_json(case), listing=lines[:12], sections=len(scripts)), sess['kind'])
+    ctx.case(repr(case_json(case)), multi or accepted_rewind or len(lines) >= 100, dict(case_json(case), listing=lines[:12], sections=len(scripts)), sess['kind'])
     ctx.count('kind:' + sess['kind'])
+    if len(lines) >= 100:
+        ctx.count('listing>=100-lines' if len(lines) < 1000 else 'listing>=1000-lines')
     ntce = sum(1 for w in what if w[0] == 'tce')
     # phase tracking: the harness dump tells the current script length; map it to the phase
     # block layout: [banner] then per position k: (k>0: echo of the history command), print, stack, altstack, vfexec
@@ -326,6 +343,11 @@ def more_to_come(d, phase, scripts, sess):
 @st.composite
 def cases(draw, maxlen):
     sess = draw(sessions())
+    if sess['kind'] == 'plain-long':
+        n = len(R.decode(sess['kw']['script']))
+        if n <= 140:
+            return (sess, ['s'] * draw(st.sampled_from([95, 99, 100, 101, n - 1, n, n + 1])) + draw(c04.histories(6)))
+        return (sess, draw(c04.histories(4)))
     return (sess, draw(c04.histories(maxlen)))
 
 
